@@ -446,6 +446,16 @@ def m_dict_keys(eng, st, recv, args, kwargs, node):
     raise Unsupported(".keys() of unordered dict model")
 
 
+def m_dict_values(eng, st, recv, args, kwargs, node):
+    """d.values() of a dictionary with a recorded key order: the values in that order"""
+    o = st.heap[recv.addr] if isinstance(recv, VRef) else None
+    if not isinstance(o, HDict) or o.keys is None:
+        raise Unsupported(".values() of %r" % (recv,))
+    ko = st.heap[o.keys.addr]
+    kg, val = ko.get, o.val
+    return st.alloc(HSeq(ko.len, lambda k: val(eng.key_term(kg(k)))))
+
+
 def m_append(eng, st, recv, args, kwargs, node):
     o = st.heap[recv.addr]
     if not isinstance(o, HSeq) or o.numpy:
@@ -1757,7 +1767,7 @@ def install(eng):
     M["csv.writer"] = m_csv_writer
     eng.methods["writerow"] = m_writerow
     eng.methods.update({"append": m_append, "copy": m_copy, "cumsum": m_cumsum, "astype": m_astype,
-                        "keys": m_dict_keys, "readlines": m_readlines, "lstrip": m_lstrip, "isdigit": m_isdigit, "replace": m_replace,
+                        "keys": m_dict_keys, "values": m_dict_values, "readlines": m_readlines, "lstrip": m_lstrip, "isdigit": m_isdigit, "replace": m_replace,
                         "lower": m_lower, "startswith": m_startswith, "join": m_join})
     M["sympy.symbols"] = m_opaque_fn
     M["np.arange"] = m_np_arange
